@@ -164,9 +164,12 @@ fn main() {
 			Err(_) => {
 				let (loc, msg) = last_panic.lock().unwrap().clone().unwrap_or_default();
 				let subject = loc.starts_with("/repo/") || loc.contains("/.cargo/registry/");
+				// `Result::expect` / `unwrap` on an error of the code under test: "<what>: <Debug of the error>", the
+				// Debug form beginning with (or wrapping) a variant of one of grin's error enums
 				let grin_err = ["StoreErr", "TxHashSetErr", "InvalidRoot", "AlreadySpent", "Orphan", "Unfit", "Chain::init", "prelude", "builder", "LmdbErr", "SerErr", "Err(", "InvalidBlock", "Immature", "Committed", "Secp("]
 					.iter()
-					.any(|k| msg.contains(k));
+					.any(|k| msg.contains(k))
+					|| GRIN_ERROR_VARIANTS.iter().any(|v| msg.contains(&format!(": {}", v)) || msg.contains(&format!("({}", v)) || msg.contains(&format!("source: {}", v)));
 				if subject || grin_err {
 					let mut r = Report::new();
 					let short: String = msg.chars().take(300).collect();
@@ -257,6 +260,17 @@ fn main() {
 
 /// Scratch directories are named `<tag>-<pid>[-…]`; a killed run leaves its own behind.  Remove the
 /// ones whose process no longer exists.
+/// variant names of the error enums of grin_chain, grin_core (block, transaction, committed, ser, pow, segment,
+/// libtx), grin_store, grin_pool, grin_p2p and grin_keychain
+const GRIN_ERROR_VARIANTS: &[&str] = &[
+	"Unfit", "Orphan", "DifficultyTooLow", "WrongTotalDifficulty", "LowEdgebits", "InvalidScaling", "InvalidPow", "OldBlock", "InvalidBlockProof", "InvalidBlockTime", "InvalidBlockHeight", "InvalidRoot", "InvalidMMRSize", "Keychain", "Secp", "AlreadySpent", "DuplicateCommitment", "ImmatureCoinbase", "MerkleProof", "OutputNotFound", "RangeproofNotFound",
+	"TxKernelNotFound", "OutputSpent", "InvalidBlockVersion", "InvalidTxHashSet", "StoreErr", "FileReadErr", "SerErr", "TxHashSetErr", "TxLockHeight", "NRDRelativeHeight", "GenesisBlockRequired", "Transaction", "Block", "InvalidHeaderHeight", "Other", "Committed", "Stopped", "Bitmap", "SyncError", "SegmentError", "AbortingPIBDError",
+	"SegmenterHeaderMismatch", "InvalidSegmentHeight", "InvalidSegment", "KernelSumMismatch", "InvalidTotalKernelSum", "CoinbaseSumMismatch", "TooHeavy", "KernelLockHeight", "NRDKernelPreHF3", "NRDKernelNotEnabled", "CutThrough", "Serialization", "LockHeight", "RangeProof", "InvalidProofMessage", "InvalidOutputFeatures", "InvalidKernelFeatures",
+	"InvalidFeeFields", "InvalidNRDRelativeHeight", "IncorrectSignature", "InvalidValue", "IOErr", "UnexpectedData", "CorruptedData", "CountError", "TooLargeReadErr", "HexError", "SortError", "DuplicateError", "UnsupportedProtocolVersion", "NotFoundErr", "LmdbErr", "FileErr", "OtherErr", "InvalidTx", "ImmatureTransaction", "DandelionError",
+	"OverCapacity", "LowFeeTransaction", "DuplicateTx", "NRDKernelRelativeHeight", "Connection", "BadMessage", "UnexpectedMessage", "MsgLen", "Banned", "ConnectionClose", "Timeout", "PeerWithSelf", "GenesisMismatch", "KeyDerivation", "SwitchCommitment", "Signature", "MissingLeaf", "MissingHash", "NonExistent", "Mismatch", "Verification",
+	"EdgeAddition", "InvalidCycle", "NoCycle", "NoSolution", "RootMismatch",
+];
+
 fn sweep_stale_scratch() {
 	let base = uni::scratch_base();
 	if let Ok(rd) = std::fs::read_dir(&base) {
